@@ -27,8 +27,9 @@ META = dict(
     technique="one universe module checked fact-by-fact against a gcc reference program and ctypes, plus exhaustive "
               "single-point cdef mutants (swap / retype / remove / add / pack flip / value +-1 / negate / 2^64 wrap) "
               "each built against the same C source, with gcc deciding whether the mutant changes a checked fact",
-    text="Every declared item of a 330-name universe (31 primitives as global, constants, function result and "
-         "argument; 16 structs/unions; 8 enums; 18 integer constants; typedef chain) is compared with gcc's facts and "
+    text="Every declared item of a 334-name universe (31 primitives as global, constants, function result and "
+         "argument; 16 struct/union kinds each declared 12 times (tag + 11 typedef aliases); 10 enums; 18 integer "
+         "constants; typedef chain) is compared with gcc's facts and "
          "with the module's memory through ctypes.  Every single-point mutant of every struct, enumerator and integer "
          "constant is compiled (batched, independent items per module): the mutated item must raise on every use when "
          "gcc's layout of the mutated declaration differs in a field offset, field size or total size (or the value "
